@@ -3920,7 +3920,9 @@ class NetCDFRead(IORead):
                 )
 
                 if ncvar in g["auxiliary_coordinate"]:
-                    coord = g["auxiliary_coordinate"][ncvar].copy()
+                    coord = self._copy_construct(
+                        "auxiliary_coordinate", field_ncvar, ncvar
+                    )
                 else:
                     coord = self._create_auxiliary_coordinate(
                         field_ncvar, ncvar, f
